@@ -48,3 +48,24 @@ PROPS["C06"] = {
          "shards": {"quick": 8, "thorough": 16}, "env_tier": {"quick": {"VERIF_C06_STRIDE": 40}, "thorough": {"VERIF_C06_STRIDE": 1}}},
     ],
 }
+
+PROPS["C03"] = {
+    "level": "exploration",
+    "rule": ("expected results (generated, and every distinct ExpectedResponse of the expanded embedded corpus) x one labelled deviation at a drawn/enumerated position "
+             "(error presence/code/message/details, payload count/order/bytes, echoed requests, header/trailer/request-header/query-param missing or altered, timeout, HTTP status) "
+             "x 0-4 labelled lenient rewrites (re-casing, extra metadata, comma join/split, merged metadata, alternative code, free message, timeout in grace window, status, unsent count); "
+             "oracle: no deviation => outcome nil; deviation => outcome non-nil and names the class. Non-trivial: deviation at position >=1, a timeout boundary deviation, "
+             "or a merge/timeout-window/join/split leniency applied; distinct by canonical JSON of (definition, deviation, rewrites)."),
+    "assumptions": ["header lists have case-insensitively unique names (all producers build them from maps)",
+                    "detail order is significant (as coded; docs mark it TODO) - no reordering rewrite is generated",
+                    "dropping ALL query params is not compared by the runner (only when both sides are non-empty) and is not asserted",
+                    "request headers/timeout/query params are compared on the first payload only"],
+    "units": [
+        {"name": "C03Generated", "pkg": CC, "test": "TestVerifC03Generated", "kind": "rapid",
+         "checks": {"quick": 15000, "thorough": 250000}, "shards": {"quick": 4, "thorough": 16}},
+        {"name": "C03Corpus", "pkg": CC, "test": "TestVerifC03Corpus", "kind": "rapid",
+         "checks": {"quick": 8000, "thorough": 100000}, "shards": {"quick": 2, "thorough": 16}},
+        {"name": "C03CorpusEnum", "pkg": CC, "test": "TestVerifC03CorpusEnum", "kind": "enum",
+         "shards": {"quick": 8, "thorough": 16}},
+    ],
+}
